@@ -35,7 +35,7 @@ def run_seed(sid, mode):
             return sid, {"error": "patch does not apply to the current /repo: " + (p.stdout + p.stderr)[-300:]}
         res = {}
         for c in checks:
-            env = dict(os.environ, XGCM_SRC=scratch)
+            env = dict(os.environ, XGCM_SRC=scratch, VERIF_SKIP_MC="1")
             q = subprocess.run([os.path.join(ROOT, "check"), c, "--tier", "quick"], capture_output=True, text=True, env=env, cwd=ROOT)
             keys = re.findall(r"key=(\S+)", q.stdout)
             res[c] = {"exit": q.returncode, "violation_keys": keys[:6]}
